@@ -3,7 +3,9 @@ from .. import hist as H
 
 PID = "C01"
 FAM = 1
-ALLOWED_AXIOMS = set()
+ALLOWED_AXIOMS = {"Classical_Prop.classic", "ClassicalDedekindReals.sig_not_dec",
+                  "ClassicalDedekindReals.sig_forall_dec",
+                  "FunctionalExtensionality.functional_extensionality_dep"}
 PROPS = {"C01", "C02"}
 WEIGHTS = H.W_STORE
 MANIFEST = {
